@@ -1123,7 +1123,8 @@ func (e *Engine) spawn(st *State, th *Thread, fr *Frame, in *ssa.Go) {
 	fn, args := e.resolveCallee(st, fr, in.Common())
 	th.NGo++
 	id := e.internThread(threadKey{th.ID, e.pos(in), th.NGo})
-	nt := &Thread{ID: id, ep: st.ep, BarParent: th.ID, BarBlocks: th.Blocks, BarN: len(th.Open)}
+	bars := append(append([]spawnBar(nil), th.Bars...), spawnBar{th.ID, th.Blocks, len(th.Open)})
+	nt := &Thread{ID: id, ep: st.ep, Bars: bars}
 	st.Threads = append(st.Threads, nt)
 	// the new thread starts with a pseudo frame that performs the call
 	nt.Start = &StartCall{Fn: fn, Args: args}
